@@ -238,11 +238,12 @@ def _sweep_values(nm, npar, rng):
     return jnp.asarray(rng.uniform(0.2, 0.9, size=(2, npar)))
 
 
-def _concrete_state(nm, make, rng):
-    """a random state of the shape the family expects (eager float build to read the channel count)"""
+def _concrete_state(nm, make, rng, build_eagerly=True):
+    """a random state of the shape the family expects.  build_eagerly=False (the compiled-first part) must not construct
+    anything eagerly before the compiled sweep: the channel count is then taken from the family name (D-channel Burgers)"""
     D = int(nm[0]) if nm[:2] in ("2D", "3D") else 1
     n = {1: 16, 2: 8, 3: 4}[D]
-    C = make([0.5] * 8).num_channels
+    C = make([0.5] * 8).num_channels if build_eagerly else (D if "Burgers" in nm else 1)
     return jnp.asarray(rng.normal(size=(C,) + (n,) * D)) * 0.3
 
 
@@ -256,7 +257,7 @@ def _tte_main():
     for nm, make, npar in _concrete_cases():
         P = _sweep_values(nm, npar, rng)
         try:
-            u = _concrete_state(nm, make, rng)
+            u = _concrete_state(nm, make, rng, build_eagerly=False)
             first = eqx.filter_jit(eqx.filter_vmap(lambda p: make(p)(u)))(P)
             eager = jnp.stack([make([float(x) for x in P[i]])(u) for i in range(2)])
             again = eqx.filter_vmap(lambda p: make(p)(u))(P)
